@@ -110,6 +110,13 @@ class Handlers(UserDict):
         #   to a cached handler that was removed.
         self._resolve.cache_clear()  # type: ignore[attr-defined]
 
+    def __ior__(self, other: Any) -> Handlers:  # type: ignore[override,misc]
+        # NOTE: UserDict.__ior__() updates self.data in place, bypassing
+        #   __setitem__(); go through update() instead so that the resolver
+        #   cache is cleared and a replaced handler is not resolved again.
+        self.update(other)
+        return self
+
     def _create_resolver(self) -> ResolverMethod:
         # PERF(kgriffs): Under PyPy the LRU is relatively expensive as compared
         #   to the common case of the self.data lookup succeeding. Using
